@@ -1,20 +1,20 @@
 #!/bin/bash
 # usage: tools/confirm_seed.sh <PID>   -- confirms a sub-agent's seeded change in its scratch worktree /tmp/seed_<PID>:
 #   demo fails with the change, passes without it, and the 87 stable tests still pass with it.
-P=$1; W=/tmp/seed_$P; cd $W || exit 2
-git diff -- hta > /tmp/seed_$P.patch
-[ -s /tmp/seed_$P.patch ] || { echo "no change applied"; exit 2; }
-PYTHONPATH=$W /venv/bin/python demo_$P.py > /tmp/seed_$P.demo_with.log 2>&1; A=$?
+P=$1; PRE=${SEED_PREFIX:-seed}; W=/tmp/${PRE}_$P; cd $W || exit 2
+git diff -- hta > /tmp/${PRE}_$P.patch
+[ -s /tmp/${PRE}_$P.patch ] || { echo "no change applied"; exit 2; }
+PYTHONPATH=$W /venv/bin/python demo_$P.py > /tmp/${PRE}_$P.demo_with.log 2>&1; A=$?
 git stash -q -- hta
-PYTHONPATH=$W /venv/bin/python demo_$P.py > /tmp/seed_$P.demo_without.log 2>&1; B=$?
+PYTHONPATH=$W /venv/bin/python demo_$P.py > /tmp/${PRE}_$P.demo_without.log 2>&1; B=$?
 git stash pop -q
-PYTHONPATH=$W /venv/bin/python -m pytest -q -p no:cacheprovider --timeout=900 --continue-on-collection-errors --junitxml=/tmp/seed_$P.junit.xml tests > /tmp/seed_$P.pytest.log 2>&1
-python3 - "$P" <<'PY'
+PYTHONPATH=$W /venv/bin/python -m pytest -q -p no:cacheprovider --timeout=900 --continue-on-collection-errors --junitxml=/tmp/${PRE}_$P.junit.xml tests > /tmp/${PRE}_$P.pytest.log 2>&1
+SEED_PREFIX=$PRE python3 - "$P" <<'PY'
 import json,sys,xml.etree.ElementTree as ET
 P=sys.argv[1]
 stable=set(json.load(open('/root/.vp/BASELINE.json'))['stable_pass'])
 ok=set()
-for tc in ET.parse(f'/tmp/seed_{P}.junit.xml').getroot().iter('testcase'):
+for tc in ET.parse('/tmp/'+__import__('os').environ.get('SEED_PREFIX','seed')+f'_{P}.junit.xml').getroot().iter('testcase'):
     if not any(c.tag in('failure','error','skipped') for c in tc):
         ok.add(f"{tc.get('classname')}::{tc.get('name')}")
 missing=sorted(stable-ok)
